@@ -37,7 +37,7 @@ import (
 
 // ------------------------------------------------------------------ generator
 
-var lifetimes = []int{10, 50, 100, 250, 1000, -1}
+var lifetimes = []int{10, 50, 100, 250, 1000, -1, 0, 1} // 0: InterestLifetime present with value 0
 
 func genPit(g *common.Gen, r *common.Rand) {
 	u := common.NameUniverse{Alphabet: []string{"a", "b", "c"}[:r.Range(2, 3)], MaxDepth: r.Range(2, 3)}
